@@ -4,7 +4,7 @@
    MIR_scan_string), coq/C10/FloatFmt.v (libc printf/strtod oracles). *)
 From Coq Require Import List ZArith NArith.
 From MirV Require Import Base.W64 C11.Ast C11.BinIO C11.BinIOProofs C10.TextOut C10.TextScan C10.TextProofs C10.LexProofs
-  C10.TextTokens C10.ParseProofs C10.PrintNormProofs C10.LexAllProofs C10.TextFixpoint C10.FloatFmt C10.TextExamples C10.TextWfDec C11.TempNames.
+  C10.TextTokens C10.ParseProofs C10.PrintNormProofs C10.LexAllProofs C10.TextFixpoint C10.FloatFmt C10.TextExamples C10.TextWfDec C10.RelabelIdem C11.TempNames.
 Import ListNotations.
 Local Open Scope Z_scope.
 
@@ -136,6 +136,25 @@ Theorem text_wf_checked : forall pF pD pLD fF fD fLD ms,
   wf_text_b pF pD pLD fF fD fLD ms = true -> relabel_ctx ms = Some ms -> wf_text pF pD pLD fF fD fLD ms.
 Proof. exact wf_text_b_spec. Qed.
 Print Assumptions text_wf_checked.
+
+(* The scanner's renaming is idempotent: the context a scan produces is numbered in first-occurrence order
+   (canon_labels), whatever the numbering of the original, as long as the context's label counter stays
+   below 2^63 ([label_count ms] = the counter after scanning ms).  Proof: simulation of the run on the
+   renamed context by the run on the original one (RelabelIdem.v). *)
+Theorem text_relabel_canonical : forall ms ms',
+  relabel_ctx ms = Some ms' -> label_count ms < 2 ^ 63 -> canon_labels ms'.
+Proof. exact relabel_ctx_idem. Qed.
+Print Assumptions text_relabel_canonical.
+
+(* Hence the second round is a strict fixpoint: printing the scanned (renamed) context and scanning it
+   again returns it up to tnorm and prints identically, whenever the renamed context passes wf_text_b
+   (evaluated by the driver on every generated case: theorem_hypotheses_second_round). *)
+Theorem text_second_round : forall pF pD pLD fF fD fLD ms ms',
+  relabel_ctx ms = Some ms' -> label_count ms < 2 ^ 63 -> wf_text_b pF pD pLD fF fD fLD ms' = true ->
+  scan_ctx pF pD pLD (p_ctx fF fD fLD ms') = Ok (map tnorm_module ms')
+  /\ p_ctx fF fD fLD (map tnorm_module ms') = p_ctx fF fD fLD ms'.
+Proof. exact text_second_round_lemma. Qed.
+Print Assumptions text_second_round.
 
 (* the writer model terminates with an output on every context (it is a structurally recursive
    function over items, insns and operands: no fuel, no partiality) *)
